@@ -69,6 +69,28 @@ def cases(seed, tier, shard, nshards):
             continue
         made += 1
         yield {'kind': mode, 'ast': ast, 'features': sorted(feats)}
+    # units with ONE nested branch, repeated twice on an anchor that is not the first node: the sub-class of 'nested branch
+    # inside a multiplied unit' the reader expands correctly (everything else of that class is the open finding's stream)
+    for _ in range(max(2, count // 25)):
+        names = G.NAMES
+        mk = lambda bond=None: G.el(rng.choice(names), annot=(A.random_annotation(rng, 'base')[0] if rng.random() < 0.3 else None),
+                                    bond=(rng.choice([0, 2, 3, 4]) if bond is None and rng.random() < 0.3 else bond))
+        unit = [mk() for _ in range(rng.randint(2, 4))]
+        unit[0]['bond'] = None
+        host = rng.randrange(len(unit) - 1)
+        inner = [mk() for _ in range(rng.randint(1, 3))]
+        inner[0]['bond'] = None
+        unit[host]['branches'].append(G.br(inner, order=rng.choice([None, None, 2, 0, 3])))
+        anchor = mk()
+        anchor['branches'].append(G.br(unit, order=rng.choice([None, None, 2, 3]), mult=2, between=rng.choice([None, None, 0, 2, 3, 4])))
+        ast = [mk() for _ in range(rng.randint(1, 3))] + [anchor] + [mk() for _ in range(rng.randint(0, 2))]
+        ast[0]['bond'] = None
+        feats = G.features(ast)
+        try:
+            G.denote(ast)
+        except G.RefSyntaxError:
+            continue
+        yield {'kind': 'simple_nested_unit', 'ast': ast, 'features': sorted(feats)}
     if shard < 4:
         for big in (50, 200):
             e = G.el('A', mult=big) if shard % 2 == 0 else G.el('A', branches=[G.br([G.el('B'), G.el('C', bond=2)], mult=big, between=shard)])
